@@ -348,9 +348,12 @@ func c09GenInput(rng *rand.Rand, self string) c09Input {
 		}
 		ent := []string{"NotifyJoin", "NotifyUpdate", "NotifyMerge", "NotifyAlive", "NotifyLeave"}[rng.Intn(5)]
 		return c09Input{Entry: ent, Class: cls, Buf: meta, Aux: int64(rng.Intn(6))}
-	case x < 95:
+	case x < 94:
 		return c09Input{Entry: "NotifyConflict", Class: "conflict", Aux: int64(rng.Intn(4))}
-	case x < 97:
+	case x < 96:
+		// a well-formed key query (install / use / remove / list) for the node with a persisted keyring
+		return c09Input{Entry: "KeyQuery", Class: "keyquery", Aux: int64(rng.Intn(8))}
+	case x < 98:
 		// replies to a query the node itself is running (with / without acks requested, relay factor):
 		// header fields of the reply (flags, from, id, time) take boundary values, payload arbitrary
 		b, c := c09GenMsg(rng, self)
@@ -395,6 +398,14 @@ func c09Child(t *testing.T, spec string) {
 				}}
 			if keyring {
 				o.Keyring = kr
+				// the keyring is persisted: key queries rewrite this file (its directory disappears
+				// half way through the batch, so that the rewrite fails)
+				_ = os.MkdirAll(filepath.Join(dir, "kr"), 0o755)
+				inner := o.Mutate
+				o.Mutate = func(c *serf.Config) {
+					inner(c)
+					c.KeyringFile = filepath.Join(dir, "kr", "keyring.json")
+				}
 			}
 			nd, err := cluster.Start(snet, o)
 			if err != nil {
@@ -526,6 +537,15 @@ func c09Child(t *testing.T, spec string) {
 					conf.ML.Conflict.NotifyConflict(local, cluster.FakeNode("self", "", 0, nil))
 				}
 				time.Sleep(20 * time.Second) // let the resolution query time out
+			case "KeyQuery":
+				name := []string{"_serf_install-key", "_serf_use-key", "_serf_remove-key", "_serf_list-keys"}[in.Aux%4]
+				key := bytes.Repeat([]byte{byte(2 + in.Aux/4)}, 16)
+				if in.Aux%4 == 1 {
+					key = bytes.Repeat([]byte{3}, 16) // the primary key
+				}
+				stats["key_queries"]++
+				keyed.NotifyMsg(wire.Encode(wire.Query, &wire.MsgQuery{LTime: uint64(1000 + i), ID: uint32(i), Addr: []byte{10, 0, 0, 2}, Port: 7946, SourceNode: "peer1",
+					Timeout: time.Second, Name: name, Payload: wire.Encode(wire.KeyRequest, &wire.KeyReq{Key: key})}))
 			case "QueryReply":
 				params := nd.S.DefaultQueryParams()
 				params.RequestAck = in.Aux&1 == 1
@@ -612,6 +632,10 @@ func c09Child(t *testing.T, spec string) {
 				<-done
 			}
 			synctest.Wait()
+			if i == start+count/2 {
+				_ = os.RemoveAll(filepath.Join(dir, "kr"))
+				stats["keyring_directory_removed"]++
+			}
 			if i%97 == 0 {
 				time.Sleep(time.Second)
 				synctest.Wait()
